@@ -238,3 +238,9 @@ impl FileIo {
   weaken_thunk_patterns
 @*/
 /*@end*/
+/*@fn lang/dynamics/src/impls.rs :: fn write_str
+  plain
+  vec_as_slice args
+  weaken_thunk_patterns
+@*/
+/*@end*/
